@@ -83,5 +83,6 @@ Full ==
 \* stealing when memory runs out
 Demote ==
   { <<"get", "0", "1", "0", "-1">>, <<"get", "TO", "1", "-1", "-1">>, <<"get", "0", "0", "0", "-1">>,
-    <<"get", "0", "0", "1", "-1">>, <<"get", "HO", "1", "0", "-1">>, <<"putnew", "0", "-1">>, <<"drain">> }
+    <<"get", "0", "0", "1", "-1">>, <<"get", "HO", "1", "0", "-1">>, <<"putnew", "0", "-1">>, <<"drain">>,
+    <<"twin">> }
 =============================================================================
